@@ -23,6 +23,40 @@ def nonascii_field_files():
     return out
 
 
+def func_range_files():
+    """FUNC / STACK CFI INIT groups whose sub-records (line records, INLINE ranges, CFI deltas) lie before, across the start of,
+    inside, across the end of, exactly after and far after the group's own address range, with sizes 0 / 1 / large and addresses
+    at the top of the 64-bit space: syntactically valid files, so every one must parse (class of seeded C09-6 / C09-8: range
+    arithmetic in finish_item / finish)."""
+    out = []
+    funcs = [(0x1000, 0x10), (0x1000, 1), (0x1000, 0), (0, 0x10), (0xfffffffffffffff0, 0x10), (0xffffffffffffffff, 1),
+             (0xfffffffffffffff8, 0xffffffff)]
+    for a, sz in funcs:
+        end = a + sz
+        spots = [(a - 8, 4), (a - 4, 4), (a - 2, 4), (a, 4), (a + 2, 4), (end - 2, 4), (end - 1, 1), (end, 4), (end + 1, 1),
+                 (end + 0x100, 4), (a, 0), (end, 0), (a, 0xffffffff), (end - 1, 0xffffffff), (0xffffffffffffffff, 1),
+                 (0xffffffffffffffff, 0xffffffff), (0, 1), (0, 0)]
+        spots = [(x, n) for (x, n) in spots if 0 <= x <= 0xffffffffffffffff]
+        head = "FUNC %x %x 0 f" % (a, sz)
+        for (x, n) in spots:
+            out.append("%s\n%x %x 7 1" % (head, x, n))
+            out.append("%s\nINLINE 0 3 1 2 %x %x" % (head, x, n))
+            out.append("%s\n%x %x 7 1\nINLINE 0 3 1 2 %x %x\n%x 4 8 1" % (head, x, n, x, n, a))
+        for (x, n), (y, k) in zip(spots, spots[3:] + spots[:3]):
+            out.append("%s\n%x %x 7 1\n%x %x 8 1" % (head, x, n, y, k))
+            out.append("%s\nINLINE 0 3 1 2 %x %x %x %x\nINLINE 1 4 1 2 %x %x" % (head, x, n, y, k, y, k))
+        if sz <= 0xffffffff and a <= 0xffffffffffffffff:
+            chead = "STACK CFI INIT %x %x .cfa: $esp 4 +" % (a, sz)
+            for (x, n) in spots:
+                out.append("%s\nSTACK CFI %x .cfa: $esp 8 +" % (chead, x))
+            out.append("%s\n%s\nPUBLIC %x 0 p" % (head, chead, a))
+    # two functions: same address, overlapping, size 0 aliases, each with a line record outside of it
+    for (a1, s1), (a2, s2) in [((0x1000, 0x10), (0x1000, 0x10)), ((0x1000, 0x10), (0x1008, 0x10)), ((0x1000, 0x10), (0x1000, 0)),
+                               ((0x1000, 0), (0x1000, 0x10)), ((0x1000, 0x20), (0x1008, 4))]:
+        out.append("FUNC %x %x 0 f\n%x 4 1 1\nFUNC %x %x 0 g\n%x 4 2 1" % (a1, s1, a1 + s1, a2, s2, a2 + s2 + 4))
+    return [("MODULE Linux x86 ABC name\nFILE 1 a.c\nINLINE_ORIGIN 2 inl\n" + t + "\nFILE 5 after\n").encode() for t in out]
+
+
 class C09(PropBase):
     pid = "C09"
     coq_dirs = ["Base", "Gen", "C08", "C11", "C09"]
@@ -107,6 +141,9 @@ class C09(PropBase):
         #      INIT: malformed by the format, so the parse must fail - and must not panic (class of seeded C09-7)
         for data in nonascii_field_files():
             add("nonascii-field", data, tag="bad")
+        # 2b". sub-records before / across / inside / after their group's address range, sizes 0 / 1 / large, top of the address space
+        for data in func_range_files():
+            add("func-range", data, tag="ok")
         # 2c. a carriage return that is not part of the line ending, inside every record kind (measured hole: rejected INFO lines)
         for data, k in G.cr_inside_files():
             add("cr-inside", data)
